@@ -461,7 +461,30 @@ def mon_C08(hist, ctxs, kf):
     v = []
     nontrivial = 0
     closed_ledger = defaultdict(set)     # (app, mailbox) -> sides that were answered `closed` for this incarnation
+    sent = {"opened": {}, "closed": set()}   # per connection, from the raw commands it sent (as in C17's monitor)
     for x in ctxs:
+        if x.kind == "cmd" and not x.crash and x.c in x.bound_pre and x.exc is None and isinstance(x.mtype, str):
+            kinds_c = [f[3] for f in x.frames_c]
+            if x.mtype == "close":
+                msg = x.msg
+                if x.c in sent["closed"]:
+                    legit = False
+                elif "mailbox" in msg:
+                    legit = isinstance(msg["mailbox"], str) and not (x.c in sent["opened"] and msg["mailbox"] != sent["opened"][x.c])
+                else:
+                    legit = x.c in sent["opened"]
+                if legit and x.error == "other":
+                    # close always completes: the first close of a connection, naming what it opened (or anything, if it
+                    # opened nothing), is answered `closed` -- whatever happened to the mailbox in the meantime
+                    v.append((x.i, "the first close of connection %s (it had opened %r; close names %r) is refused with a protocol error "
+                              "instead of being answered closed" % (x.c, sent["opened"].get(x.c), msg.get("mailbox"))))
+                if "closed" in kinds_c:
+                    sent["closed"].add(x.c)
+            elif x.mtype == "open" and isinstance(x.msg.get("mailbox"), str) and x.c not in x.holds_pre:
+                # (also when the open is refused as crowded: the connection has named its mailbox -- as in C17's monitor)
+                sent["opened"][x.c] = x.msg["mailbox"]
+        if x.kind in ("restart",) or x.crash:
+            sent = {"opened": {}, "closed": set()}
         # a mailbox that has no row any more starts a new incarnation
         live = set((r[0], r[1]) for r in x.post["chan"]["mb"])
         if x.kind != "cmd" or x.crash:
@@ -870,6 +893,20 @@ def mon_C16(hist, ctxs, kf):
     for x in ctxs:
         pre, post = x.pre["usage"], x.post["usage"]
         t = x.post["now"]
+        # the true first-arrival times of what this event retired, from the side rows stored before it (not from the
+        # record's own total_time: a record summarised from the wrong side rows is consistent with itself)
+        cands = {"np": {}, "mb": {}}
+        pc, qc = x.pre["chan"], x.post["chan"]
+        left_np = set(r[0] for r in qc["np"])
+        for r in pc["np"]:
+            if r[0] not in left_np:
+                ts = [s[3] for s in pc["nps"] if s[0] == r[0]]
+                cands["np"].setdefault(r[1], []).append(min(ts) if ts else None)
+        left_mb = set(r[1] for r in qc["mb"])
+        for r in pc["mb"]:
+            if r[1] not in left_mb:
+                ts = [s[3] for s in pc["mbs"] if s[0] == r[1]]
+                cands["mb"].setdefault(r[0], []).append(min(ts) if ts else None)     # (no side row: only after a crash, C10)
         for tab, col in (("np", 1), ("mb", 2), ("cv", 2)):
             new = multiset_diff(post[tab], pre[tab])
             for r in (new or []):
@@ -883,6 +920,10 @@ def mon_C16(hist, ctxs, kf):
                     first = t - total      # the true first-arrival time, by the record's own total_time
                     if not (r[col] <= first < r[col] + b):
                         v.append((x.i, "%s started %d not within one interval below the true time %d" % (tab, r[col], first)))
+                    cs = cands[tab].get(r[0])
+                    if cs and None not in cs and not x.crash and not any(r[col] <= f < r[col] + b for f in cs):
+                        v.append((x.i, "%s usage record started %d is not within one interval below the first arrival of anything "
+                                  "this event retired for that app (first arrivals: %s)" % (tab, r[col], sorted(cs))))
     return v, n
 
 
